@@ -194,6 +194,9 @@ def one_case(ctx, alg, iso, cfg, name, op):
         e1 = type(r1).__name__ if st1 == 'exc' else None
         e2 = type(r2).__name__ if st2 == 'exc' else None
         ctx.note_raised(r1 if st1 == 'exc' else r2, op)
+        rr = r1 if st1 == 'exc' else r2
+        if not isinstance(rr, ZeroDivisionError) and len(ctx.notes) < 5:
+            ctx.notes.append(f'{op} raised on both layouts {type(rr).__name__}: {str(rr)[:120]} | {name} keys {[list(k) for k in keysets]}')
         if (e1 is None) != (e2 is None):
             val = r2 if e1 else r1
             ctx.violation('one layout raises, the other returns a value', cid, canonical=e1 or 'value', variant=e2 or 'value',
